@@ -207,3 +207,64 @@ def h_burst(nproc: int, rounds: int) -> bool:
         elif not is_cfg:
             return fail('C11:burst:configured-limiter-not-restored')
     return True
+
+
+# ---------------------------------------------------------------------------
+# "the count starts afresh when ... a job has been accepted": the limiter whose count an accepted job resets is the pool's
+# configured limiter.  In a threaded pool the Supervisor thread is started by Pool.__init__ BEFORE the result handler is built
+# and may run up to its first sleep in the meantime; whatever it does before that sleep must not change which limiter the
+# result handler's accept path holds.  (The thread is played up to its first time.sleep by the patched start().)
+
+class _Parked(BaseException):
+    pass
+
+
+def h_ack_limiter(nproc: int, maxr: int, freq: int) -> bool:
+    """
+    pre: 1 <= nproc <= 3 and 1 <= maxr <= 5 and 1 <= freq <= 5
+    post: _
+    """
+    import billiard.pool as bp
+    from harness import world as W
+    from harness.hbase import realize
+    nproc = realize(nproc)
+    w = W.World()
+    saved = (bp.PoolThread.start, bp.PoolThread.join)
+    parked = []
+
+    def start(self, *a, **k):
+        self._was_started = True
+        if isinstance(self, bp.Supervisor):
+            # the new thread runs at once, as far as its first sleep
+            real_sleep = bp.time.sleep
+
+            def sleep(t):
+                raise _Parked()
+            bp.time.sleep = sleep
+            try:
+                self.body()
+            except _Parked:
+                parked.append(True)
+            finally:
+                bp.time.sleep = real_sleep
+    bp.PoolThread.start = start
+    bp.PoolThread.join = lambda self, timeout=None: None
+    try:
+        p = w.make_pool(nproc, threads=True, max_restarts=maxr, max_restart_freq=freq)
+    finally:
+        bp.PoolThread.start, bp.PoolThread.join = saved
+    if not parked:
+        return fail('C11:harness:supervisor-did-not-reach-a-sleep')
+    rs = p._result_handler.restart_state
+    if rs.maxR != maxr or rs.maxT != freq:
+        return fail('C11:pool:acceptance-resets-a-limiter-that-is-not-the-configured-one')
+    # an accepted job resets exactly that object
+    rs.R = 3
+    r = p.apply_async(W.val, ('j',))
+    w.feed()
+    w.w_take(p._pool[0])
+    w.drain_results()
+    if rs.R != 0:
+        return fail('C11:pool:acceptance-did-not-reset-the-count')
+    p._terminate.cancel()
+    return True
